@@ -97,7 +97,12 @@ def predicates(full=True):
               [b('>', pos, num(1)), last], [b('=', pos, last), num(1), b('=', pos, num(1))],
               # number-valued predicates that are neither literals nor mention position()/last(): still compared with the position
               [b('+', num(1), num(1))], [fn('count', path(step('child', WILD)))], [fn('number', path(step('attribute', name('x'))))],
-              [fn('string-length', path(step('self', NODE)))], [b('-', fn('count', path(step('parent', NODE), step('child', WILD))), num(1))]]
+              [fn('string-length', path(step('self', NODE)))], [b('-', fn('count', path(step('parent', NODE), step('child', WILD))), num(1))],
+              # a nested path with its own positional predicate (another context node list, in which the same node has another position),
+              # then position()/last() of the outer list again
+              [path(step('parent', NODE), step('child', NODE, b('>', pos, num(0)))), b('=', pos, num(2))],
+              [b('and', path(step('preceding-sibling', NODE, b('=', pos, num(1)))), b('=', pos, last))],
+              [b('=', fn('count', path(step('parent', NODE), step('child', WILD, b('<=', pos, num(2))))), pos)]]
     return p
 
 
